@@ -222,7 +222,7 @@ FACTORS = [
     ("vv", [None, 0.5, 0.05]),
     ("eval", ["scalar", "vec", "blobs"]),
     ("blob_dtype", [None, "int64", "float32"]),  # type of the scalar blob a likelihood returns next to logL (only with eval=blobs)
-    ("target", ["gauss", "bimodal", "weak"]),
+    ("target", ["gauss", "bimodal", "weak", "flat", "plateau"]),  # incl. a constant likelihood and one with an exactly flat top (ties, ESS exactly at its target)
 ]
 
 
@@ -237,6 +237,11 @@ def plan(ctx):
     steps = [{"kind": "rwstep", "n": n, "W": W, "ratio": r, "scale": sc, "beta_prevs": bps, "shifts": SHIFTS}
              for n in (16, 64) for W in (2, 3) for r in (1.0, 1.5) for sc in (0.05, 1.0, 20.0)]
     ctx.explore("single-transition-diagram", steps)
+    # exact special values: every stored log-likelihood the same number, particle counts that are powers of two (ESS of a uniform pool is then
+    # EXACTLY its target at the end of warm-up, at beta_prev and at 1), flat-topped likelihood (exact ties between accepted moves)
+    ties = [{"kind": "cfg", "cfg": dict(target=t, n_particles=npart, n_total=4 * npart, ess_ratio=er, eval=ev, clustering=False, vv=vv, sample=k), "base": ctx.seed, "shifts": shifts, "max_dev": 0, "max_runs": 1}
+            for t in ("flat", "plateau", "hole") for npart in (8, 16) for er in (1.0, 2.0, 3.0) for ev in ("scalar", "vec") for vv in (None, 0.5) for k in (("tpcn", "rwm") if th else ("tpcn",))]
+    ctx.explore("exact-ties", ties)
     agg = ctx.explore("paired-runs", cases)
     if agg.extra.get("run_cap_hit"):
         ctx.cap(f"tape-deviation tree truncated in {agg.extra['run_cap_hit']} configurations (0-deviation tape and the earliest 1-deviation tapes complete)")
